@@ -13,7 +13,7 @@ from props import engine_script as es
 
 LEVEL = "proof"
 FILES = ["Engine/Engine.v", "Engine/Script.v", "Engine/EngineProofs.v", "Engine/ScriptProofs.v",
-         "Base/PyLib.v", "Gen/EventGen.v", "C01/GenTie.v", "C01/Props.v"]
+         "Base/PyLib.v", "Gen/EventGen.v", "C01/GenTie.v", "C01/HeapTie.v", "C01/Props.v"]
 
 
 def gen(rng):
@@ -126,7 +126,9 @@ TRUSTED = [
     "Python generator protocol / yield from (scripts are inlined in the model)",
     "float seconds -> ns conversion int(d*1e9) of Instant.__add__ is computed by the harness and handed to the model in ns",
     "harness/props/engine_script.py: script generator, real-Entity interpreter, pop instrumentation, encoder",
-    "translator harness/translate/py2coq.py + declared types (py2coq_targets.py EventGen): Event.__lt__ is regenerated from core/event.py on every run and proved equal to the model's heap order",
+    "translator harness/translate/py2coq.py + declared types (py2coq_targets.py EventGen): Event.__lt__ is regenerated from core/event.py on every run and proved equal to the model's heap order; "
+    "EventHeap._push_single/pop/peek/has_events/has_primary_events/size/set_current_time are regenerated from core/event_heap.py (tracing and debug "
+    "logging off, heapq rendered as a list sorted by Event.__lt__) and proved to be the heap bookkeeping of the engine model (C01/HeapTie.v)",
 ]
 
 
